@@ -25,6 +25,7 @@ func main() {
 		rep = suiteSen(*tier, *seed, *model)
 	case "C11":
 		rep = suiteEvaluators(*tier, *seed, *model)
+		rep.Merge(suiteReflect(*tier, *seed))
 	case "C17":
 		rep = suiteMatchDoc(*tier, *seed, *model)
 	case "C07":
@@ -66,6 +67,8 @@ func main() {
 	case "C09":
 		rep = suiteParse("C09", *tier, *seed, *model, map[string]bool{"position": true})
 		rep.Merge(suiteChunk("C09", "position", *tier, *seed, *model))
+	case "C11r":
+		rep = suiteReflect(*tier, *seed)
 	case "C06x":
 		rep = suiteFaultOther(*tier, *seed)
 	default:
